@@ -4,6 +4,8 @@
 cd "$(dirname "$0")/.."
 [ -z "$(git -C /repo status --porcelain -- operon_ai)" ] || { echo "/repo is not clean"; exit 9; }
 names=${@:-$(ls seeded | grep -v RESULTS)}
+# evidence/ must only ever hold runs on the unchanged tree: keep it aside while the changed trees are checked
+KEEP=$(mktemp -d); cp -a evidence "$KEEP/"; trap 'rm -rf evidence; cp -a "$KEEP/evidence" evidence; rm -rf "$KEEP"' EXIT
 for n in $names; do
   p=$(python3 -c "import json;print(json.load(open('seeded/$n/meta.json'))['property'])")
   git -C /repo apply "$PWD/seeded/$n/patch.diff" || { echo "$n: patch does not apply"; continue; }
